@@ -389,17 +389,22 @@ func main() {
 	genSessions(o, all)
 	genMisc(o, pkgs, all)
 	genLockSections(o, pkgs["."], *repo)
-<<<<<<< HEAD
 	genSharedWrites(o, all)
-=======
 	genFinishers(o, pkgs["."])
->>>>>>> sC13
+	// generators added by later work live in their own files extract/gen_<property>.go and register themselves in init()
+	for _, g := range extraGens {
+		g(o, pkgs, all, *repo)
+	}
 
 	if *factsPath != "" {
 		b, _ := json.MarshalIndent(o.facts, "", " ")
 		_ = os.WriteFile(*factsPath, b, 0o644)
 	}
 }
+
+// extraGens: fact generators registered by extract/gen_*.go files (one file per property, so that parallel work on
+// different properties never edits the same file)
+var extraGens []func(o *out, pkgs map[string]map[string]*ast.File, all []funcInfo, repo string)
 
 // ---- A. ConnPool call sites ----------------------------------------------------------------
 
@@ -1116,7 +1121,6 @@ func genLockSections(o *out, files map[string]*ast.File, repo string) {
 	o.facts["lockSections"] = len(secs)
 }
 
-<<<<<<< HEAD
 // ---- C07: assignment sites of shared fields ---------------------------------------------------
 
 // lhsParts: for an assignment target like `a.b.c[k].d` returns base identifier "a", the selector path "b.c[].d",
@@ -1218,7 +1222,8 @@ func genSharedWrites(o *out, all []funcInfo) {
 	o.write("SharedWrites", b.String())
 	o.facts["sharedFieldWrites"] = len(fieldSites)
 	o.facts["hotFuncWrites"] = len(funcSites)
-=======
+}
+
 // ---- C13. finishers: which callback pipelines a finisher (re-)enters, on which paths, on which handle ---------
 
 type finEntry struct {
@@ -1739,5 +1744,4 @@ deriving Repr
 	b.WriteString("def finishers : List FinisherFact := [\n" + strings.Join(facts, ",\n") + "\n]\n\n")
 	b.WriteString("def txClosures : List TxClosureFact := [\n" + strings.Join(closures, ",\n") + "\n]\n")
 	o.write("Finishers", b.String())
->>>>>>> sC13
 }
